@@ -45,21 +45,67 @@ def real_rows(rows, ncol, D, scale):
     return a[:, :ncol]
 
 
+# 4 roundings of 2^-24 relative: a float32 array is loaded in float32 arithmetic (10000/wl: one rounding; 10000 w/wl^2: three;
+# wl -/+ w/2 is exact on the lattice fixtures, then one division) -- Observation.tla: route array:float32
+REL32 = 4 * 2.0 ** -24
+BASE_ROUTES = {'array': 'array:float64', 'text': 'text:class', 'hdf5': 'hdf5:class'}
+KNOWN_ROUTES = {'array:float64', 'array:float32', 'array:int', 'array:fortran', 'array:readonly', 'array:list',
+                'text:class', 'text:parser', 'hdf5:class', 'hdf5:helper', 'hdf5:parser'}
+
+
+class SourceModified(Exception):
+    pass
+
+
+def _via_parser(key, path, tmpdir):
+    """the parameter file's [Observation] section (taurex.parameter.ParameterParser.generate_observation)"""
+    from taurex.parameter import ParameterParser
+    par = os.path.join(tmpdir, 'obs.par')
+    with open(par, 'w') as f:
+        f.write('[Observation]\n%s = %s\n' % (key, path))
+    pp = ParameterParser()
+    pp.read(par)
+    return pp.generate_observation()
+
+
 def load(source, arr, tmpdir, layout=None):
-    """layout: the line records of spec/TextFile.tla (text source only): the rows are written line by line in the number
+    """source: a route of Observation.tla (RoutesOf), '<source>:<way in>'; the bare source names are the class routes.
+    layout: the line records of spec/TextFile.tla (text source only): the rows are written line by line in the number
     styles, with the comment / blank lines, the specification chose; default: numpy.savetxt."""
     A, O, T = _klasses()
-    if source == 'array':
-        return A(arr.copy())
-    if source == 'text':
+    source = BASE_ROUTES.get(source, source)
+    if source not in KNOWN_ROUTES:
+        raise Machinery('route %r of the specification has no binding' % source)
+    src, way = source.split(':')
+    if src == 'array':
+        if way == 'float32':
+            given = arr.astype(np.float32)
+        elif way == 'int':
+            given = arr.astype(np.int64)
+        elif way == 'fortran':
+            given = np.asfortranarray(arr.copy())
+        else:
+            given = arr.copy()
+        if not np.array_equal(np.asarray(given, float), arr):
+            raise Machinery('the rows are not representable in the element type of route %s' % source)
+        if way == 'readonly':
+            given.setflags(write=False)
+        if way == 'list':
+            return A(given.tolist())
+        keep = given.copy()
+        obs = A(given)
+        if not (np.array_equal(given, keep) and given.dtype == keep.dtype):
+            raise SourceModified('the array handed to ArraySpectrum was modified by the load')
+        return obs
+    if src == 'text':
         path = os.path.join(tmpdir, 'obs.dat')
         if layout is None:
             np.savetxt(path, arr, fmt='%.17g')
         else:
             from .. import fx_textfile
             fx_textfile.write_text(path, arr, layout)
-        return O(path)
-    if source == 'hdf5':
+        return O(path) if way == 'class' else _via_parser('observed_spectrum', path, tmpdir)
+    if src == 'hdf5':
         import h5py
         path = os.path.join(tmpdir, 'obs.h5')
         wl, wid = arr[:, 0], arr[:, 3]
@@ -71,7 +117,10 @@ def load(source, arr, tmpdir, layout=None):
             g['instrument_spectrum'] = arr[:, 1]
             g['instrument_noise'] = arr[:, 2]
             g['instrument_wnwidth'] = 10000.0 * wid / (wl * wl)
-        return T(path)
+        if way == 'helper':
+            from taurex.util.hdf5 import taurex_hdf5_to_observation
+            return taurex_hdf5_to_observation(path)
+        return T(path) if way == 'class' else _via_parser('taurex_spectrum', path, tmpdir)
     raise Machinery('source ' + source)
 
 
@@ -105,10 +154,10 @@ def tiles_model(wn, wid, val):
     return np.array(c), np.array(w), np.array(f)
 
 
-def binner_check(obs, o):
+def binner_check(obs, o, tiles=True):
     """(grid_ok, widths_ok, aligned or None, binned values or None)."""
     b = obs.create_binner()
-    model = tiles_model(o['wn'], o['wid'], o['val'])
+    model = tiles_model(o['wn'], o['wid'], o['val']) if tiles else None
     if model is None:
         lo, hi = o['wn'].min(), o['wn'].max()
         g = np.linspace(lo * 0.9, hi * 1.1, 50)
@@ -131,13 +180,17 @@ def judge_vector(ctx, vec, perm, source, scale, tmpdir, ref, layout=None, lcls=N
     meta = dict(vec, perm=list(perm), source=source, scale=scale)
     if layout is not None:
         meta.update(layout=layout, lcls=lcls)
+    f32 = source == 'array:float32'
+    REL = REL32 if f32 else globals()['REL']
     try:
         obs = load(source, real_rows(prow, ncol, 1, scale), tmpdir, layout)
         o = observe(obs)
     except Machinery:
         raise
     except Exception as exn:
-        ctx.verdict('rows_stay_together', False, cls=cls, detail='exception %r' % exn, vector=meta)
+        # nested lists in place of an array may be refused (they are not an array); they may not be loaded differently
+        refused = source == 'array:list' and not isinstance(exn, SourceModified)
+        ctx.verdict('rows_stay_together', refused, cls=cls + (':refused' if refused else ''), detail='exception %r' % exn, vector=meta)
         return None
     s = float(scale)
     wn = [float(frac(x)) * s for x in ex['wn']]
@@ -155,12 +208,13 @@ def judge_vector(ctx, vec, perm, source, scale, tmpdir, ref, layout=None, lcls=N
     ctx.verdict('edges_consistent', allclose(o['ed'], eA, REL) or allclose(o['ed'], eB, REL), cls=cls,
                 detail='got %r expected %r (or %r)' % (o['ed'].tolist(), eA, eB), vector=meta)
     try:
-        gok, wok, aligned, binned = binner_check(obs, o)
+        # float32 bins: the binner's float32 edges differ from the float64 tiling by 2^-24 relative, slivers of the filler enter
+        gok, wok, aligned, binned = binner_check(obs, o, tiles=not f32)
     except Exception as exn:
         gok, wok, aligned, binned = False, False, False, repr(exn)
     ctx.verdict('binner_aligned', gok and wok and aligned is not False, cls=cls,
                 detail='binner grid ok %r widths ok %r binned model %r vs values %r' % (gok, wok, binned, o['val'].tolist()), vector=meta)
-    if 'nat' in vec:
+    if 'nat' in vec and not f32:
         judge_model(ctx, vec, obs, o, s, allclose(o['wid'], wA, REL), allclose(o['wid'], wB, REL), cls, meta)
     if ref is not None:
         same = all(np.array_equal(o[k], ref[k]) for k in ('wn', 'val', 'err', 'wid', 'ed'))
@@ -215,6 +269,35 @@ def run_vectors(ctx, vecs, rng, perm_cap, one_file_source=False):
                     o = judge_vector(ctx, vec, perm, source, scale, tmpdir, ref)
                     if ref is None:
                         ref = o
+
+
+def run_routes(ctx, vecs, routes, rng):
+    """Observation.tla RoutesOf / RoutesAgree: every OTHER public way of reaching the same source (element type and memory
+    layout of the array; the parameter file's [Observation] keys; the HDF5 helper of taurex.util.hdf5) loads the
+    specification's exact object for the same rows: sorted and one random row order per vector and array route, one row order
+    per file-based route, every clause.
+    The class routes are run in every row order by run_vectors."""
+    extra = sorted(set(routes) - set(BASE_ROUTES.values()))
+    unknown = set(routes) - KNOWN_ROUTES
+    if unknown or not set(BASE_ROUTES.values()) <= set(routes) | {'hdf5:class'}:
+        raise Machinery('routes of the specification %r: no binding for %r' % (sorted(routes), sorted(unknown)))
+    n = 0
+    with tempfile.TemporaryDirectory(prefix='c17r_') as tmpdir:
+        for vi, vec in enumerate(vecs):
+            ident = tuple(range(len(vec['rows'])))
+            perms = list(itertools.permutations(ident))
+            for ri, route in enumerate(extra):
+                # integers only at unit scale (D = 1: whole microns, odd and even widths); the others alternate
+                scale = 1 if route == 'array:int' or (vi + ri) % 2 == 0 else 4
+                perm = perms[rng.randrange(1, len(perms))]
+                if route.startswith('array'):
+                    ref = judge_vector(ctx, vec, ident, route, scale, tmpdir, None)
+                    judge_vector(ctx, vec, perm, route, scale, tmpdir, ref)
+                else:       # file-based routes (the dearer ones): one row order, rotating between sorted and random
+                    judge_vector(ctx, vec, perm if (vi + ri) % 3 else ident, route, scale, tmpdir, None)
+                n += 2 if route.startswith('array') else 1
+    ctx.traces += n
+    return n
 
 
 def run_text_layouts(ctx, files, vecs, rng):
@@ -633,6 +716,9 @@ def run(ctx):
     ctx.expect_refuted('refute-sortcol0', 'MC_Observation', 'MC_Observation_ref_sortcol0.cfg', 'PermutationInvariant')
     ctx.expect_refuted('refute-widthsrev', 'MC_Observation', 'MC_Observation_ref_widthsrev.cfg', 'RowsTogether')
     ctx.expect_refuted('refute-notsquared', 'MC_Observation', 'MC_Observation_ref_notsquared.cfg', 'RowsTogether')
+    # slips that live on ONE route to the source (element type of the array; the second HDF5 loader): the routes are a dimension
+    ctx.expect_refuted('refute-edgesint', 'MC_Observation', 'MC_Observation_ref_edgesint.cfg', 'RoutesAgree', workers=2)
+    ctx.expect_refuted('refute-hdf5wlgrid', 'MC_Observation', 'MC_Observation_ref_hdf5wlgrid.cfg', 'RoutesAgree', workers=2)
     # last sentence: model binned to the observation = overlap-weighted mean over each element's own bin
     ctx.check_spec('obsbin-4col', 'MC_ObsBin', 'MC_ObsBin_4col_%s.cfg' % t, workers=8 if q else 16)
     ctx.expect_refuted('refute-resumestart', 'MC_ObsBin', 'MC_ObsBin_ref_resumestart.cfg', 'AlgRefinesObs', workers=2)
@@ -640,7 +726,9 @@ def run(ctx):
         ctx.expect_refuted('refute-resumestop', 'MC_ObsBin', 'MC_ObsBin_ref_resumestop.cfg', 'AlgRefinesObs', workers=2)
     rng = random.Random(ctx.seed * 131 + 17)
     sfx = '' if q else '_thorough'
-    nv = 0
+    import time as _time
+    nv = nroutes = 0
+    t_routes = 0.0
     allvecs = []
     for c in ('4col', '3col'):
         res = ctx.check_spec('export-' + c, 'MC_Observation', 'EX_Observation_%s%s.cfg' % (c, sfx), workers=1)
@@ -650,8 +738,15 @@ def run(ctx):
         nv += len(vecs)
         allvecs += vecs
         run_vectors(ctx, vecs, rng, 24 if q else 40)
+        routes = [r for r in res.tagged('ROUTES') if r['ncol'] == vecs[0]['ncol']]
+        if not routes:
+            raise Machinery('no route table exported for ' + c)
+        _t0 = _time.time()
+        nroutes += run_routes(ctx, vecs, routes[0]['routes'], rng)
+        t_routes += _time.time() - _t0
         ctx.add_sample(dict(vector=vecs[len(vecs) // 2]))
-    ctx.note('%d exported vectors replayed in every row order through array / text / hdf5 sources' % nv)
+    ctx.note('%d exported vectors replayed in every row order through array / text / hdf5 sources; %d loads through the other routes '
+             '(array element types int / float32 / Fortran order / read-only / nested lists, parameter-file keys, taurex_hdf5_to_observation)' % (nv, nroutes))
     # the text source over the lines of the file: number styles, comment and blank lines (spec/TextFile.tla)
     if max(r[0] for v in allvecs for r in v['rows']) > 15:
         raise Machinery('exported wavelengths exceed 15: scale 16 does not put them below one micron')
@@ -683,7 +778,7 @@ def run(ctx):
     generated = fut_hold.result()
     dhold.flush(ctx)
     run_obs_holders(ctx, generated=generated)
-    ctx.note('wall: text files %.1f s, binner histories %.1f s, observation holders %.1f s' % (t_text, t1 - t0, _time.time() - t1))
+    ctx.note('wall: text files %.1f s, binner histories %.1f s, observation holders %.1f s, other routes %.1f s' % (t_text, t1 - t0, _time.time() - t1, t_routes))
 
 
 def replay(ctx, violations):
